@@ -35,6 +35,7 @@ def run(ctx):
     ctx.rule(wds)
     ctx.rule(wave_shape)
     ctx.rule(sphere_container)
+    ctx.rule(names_exist)
 
 
 def _chain(f):
@@ -466,3 +467,15 @@ def sphere_container(ctx):
     from . import c12
 
     c12.reads(ctx, R="R-C11-sphere-reads", R2="R-C11-sphere-bytes")
+
+
+
+def names_exist(ctx, R="R-C11-dispatch-tables"):
+    """Every package-module attribute the readers mention exists: the documented ValueError for an unknown force_as (and every
+    other path) cannot be pre-empted by an AttributeError raised while the dispatch is evaluated."""
+    missing = cc.undefined_package_attrs(ctx.prog, {"util", "_sphere"})
+    for f, node, name in missing:
+        ctx.bad(R, f, node, "%s is read here but the module no longer defines it: reaching this expression raises AttributeError instead of the "
+                "documented result / ValueError" % name, "names read from package modules exist")
+    if not missing:
+        ctx.ok(R, "src/pydrobert/speech/util.py", "names read from package modules exist (config.* in util.py and _sphere.py)")
